@@ -441,7 +441,7 @@ def afm_file(shape, cards, opts, ctc_code) -> list:
     shape = totuple(shape)
     cards = [tuple(c) for c in cards]
     n = R.n_features(shape)
-    names = ['A', 'B', 'C', 'D', 'E', 'F', 'G'][:n]
+    names = (['A', 'B', 'C', 'D', 'E', 'F', 'G'] + ['H%d' % i for i in range(7, n)])[:n]
     trees = AFM_CTCS[ctc_code] if n >= 3 else []
     blockpos = None
     if opts.get('block') and n >= 3:
@@ -526,6 +526,45 @@ def batch_fama(max_n, lo, hi, seed):
                     if len(res['violations']) >= 4:
                         return res
                 res['sample'] = {'shape': R.shape_str(shape), 'cards': cards, 'opts': opts}
+    return res
+
+
+WIDE = [0, 1, 2, 3, 5, 9, 10, 11, 12, 20, 25, 99, 100, 101]
+
+
+def batch_wide(which, seed):
+    """groups of 10, 12, 25 and 101 members with every pair of bounds from WIDE (one-, two- and three-digit texts
+    on either side): a reader that handles the bounds as texts, or sizes anything by a single digit, shows here."""
+    rnd = random.Random(seed)
+    res = {'instances': 0, 'nontrivial': 0, 'violations': [], 'native_runs': 0}
+    for k in (10, 12, 25, 101):
+        group = tuple(() for _ in range(k))
+        for shape, ri in (((group,), 0), ((((group,),),), 1)):
+            nrel = len(R.relations_of(shape))
+            pairs = [(a, b) for a in WIDE for b in WIDE if a <= b <= k and b >= 1]
+            for a, b in (pairs if k <= 12 else rnd.sample(pairs, min(len(pairs), 25))):
+                cards = [(1, 1)] * nrel
+                cards[ri] = (a, b)
+                if which == 'fama':
+                    args = [shape, cards, None, rnd.choice([dict(), {'card_last': 1}, {'attr_order': 1}]), []]
+                    bad = fama_file(*args)
+                    fn = 'fama_file'
+                elif which == 'glencoe':
+                    args = [shape, cards, {}, 0]
+                    bad = glencoe_file(*args)
+                    fn = 'glencoe_file'
+                else:
+                    args = [shape, cards, {}, 0]
+                    bad = afm_file(*args)
+                    fn = 'afm_file'
+                res['instances'] += 1
+                res['native_runs'] += 1
+                res['nontrivial'] += 1
+                if bad:
+                    res['violations'].append({'label': '%s-wide-group' % which, 'detail': bad[0][:300] + ' ... | group of %d, bounds [%d..%d]' % (k, a, b), 'replay_func': fn, 'replay_args': args})
+                    if len(res['violations']) >= 4:
+                        return res
+                res['sample'] = {'format': which, 'group_members': k, 'bounds': [a, b]}
     return res
 
 
@@ -718,6 +757,7 @@ def batches(tier, seed):
     b = []
     for fn in ('batch_fide', 'batch_fama', 'batch_glencoe', 'batch_afm'):
         b += [(fn, [N, lo, lo + step, seed + lo]) for lo in range(0, total, step)]
+    b += [('batch_wide', [w, seed]) for w in ('fama', 'glencoe', 'afm')]
     nfiles = len(glob.glob(os.environ.get('FMV_REPO', '/repo') + '/resources/models/**/*.xml', recursive=True))
     if tier == 'quick':
         b.append(('batch_corpus', [0, 60]))
